@@ -22,11 +22,13 @@ RULE = ("AVL: every insertion order of 1..7 distinct keys (each followed by a re
         "sweep.  A case is non-trivial when it contains an accepted insertion and a later accepted removal, rejected "
         "duplicate or successful lookup; distinct = distinct script text")
 TRUSTED_BASE = [
-    "modelled, not verified: pointer structure (AVL parent links, hash-chain prev/next splicing, trie child arrays) — "
-    "the functional models have no pointers; parent links, recomputed heights, chain links and bucket membership are "
-    "checked on the real nodes by the implementation driver after every operation; malloc / memory-pool allocation is "
-    "assumed to succeed (failure is property C18); the comparator is the total order on int64 (strcmp for the "
-    "string-keyed table)",
+    "pointer structure: heap-level models (ModelHeap.v) of the AVL tree (left/right/parent) and the hash chains "
+    "(prev/next, sentinel heads) are proved to refine the functional models and to keep the links consistent, except "
+    "the data-swap loop of AVL removal (see notes); the heap models themselves are hand transcriptions of the C pointer "
+    "assignments, tied to the code by the driver's walk of the real nodes after every operation and by running the heap "
+    "model alongside in the model driver; trie child arrays are a finite map in the model; malloc / memory-pool "
+    "allocation is assumed to succeed and hands out fresh ids (failure is property C18; free is not modelled); the "
+    "comparator is the total order on int64 (strcmp for the string-keyed table)",
 ]
 ASSUMPTIONS = [
     "comparator is a strict total order consistent with the hash (keys are int64 / decimal strings in the drivers)",
@@ -35,24 +37,45 @@ ASSUMPTIONS = [
     "remove is given a node obtained from find on the same container (the documented usage)",
 ]
 EVIDENCE_NOTES = [
-    "PROVED in Coq, unbounded, nothing left _partial (coverage.theorems): avl_inv_insert, avl_inv_remove, avl_inv_history "
+    "PROVED in Coq, unbounded (coverage.theorems).  Functional models: avl_inv_insert, avl_inv_remove, avl_inv_history "
     "(search-tree order + recorded balance = height(right) - height(left) + |balance| <= 1 at every node, preserved by "
     "insert with all four rotation cases and by remove with swap-to-leaf, retracing, rebalance and early stop); "
-    "avl_refines_map / avl_duplicate_rejected / avl_insert_exact / avl_remove_exact (every history answered like the "
-    "reference map, duplicate rejected with the tree structurally unchanged, removal deletes exactly that key); "
-    "avl_check_sound; ht_refines_map for EVERY hash function and table size, ht_duplicate_rejected; trie_refines_map over "
-    "byte strings 1..255 incl. the empty key, prefixes, bytes >= 0x80 (repaired index), trie_remove_present_true, "
-    "trie_high_bytes (repaired index in range, never slot 0), trie_unrepaired_index_out_of_bounds (the defect, as a theorem "
-    "about the unchanged index computation)",
+    "avl_refines_map / avl_duplicate_rejected / avl_insert_exact / avl_remove_exact; avl_check_sound; ht_refines_map for "
+    "EVERY hash function and table size, ht_duplicate_rejected; trie_refines_map over byte strings 1..255 incl. the empty "
+    "key, prefixes, bytes >= 0x80 (repaired index), trie_remove_present_true, trie_high_bytes, "
+    "trie_unrepaired_index_out_of_bounds",
+    "PROVED in Coq at HEAP level (ModelHeap.v: node ids, left/right/parent and prev/next fields, the C functions' pointer "
+    "assignments in order): havl_parent_links_consistent (parent(child(x)) = x for every node, root's parent NULL, "
+    "wherever the representation holds); havl_rebalance_refines (+ havl_rebalance_is_model): the four rotations and "
+    "rebalance rewrite left/right/parent/root exactly as the functional rotation requires — dropping a parent "
+    "assignment in the heap model breaks this proof (tried); havl_insert_refines: the whole insert (descent, linking "
+    "of the new node, retracing upward through the parent links, rebalance) refines the functional insert and keeps "
+    "the representation; havl_refines_map_partial: every history of inserts and finds; "
+    "havl_remove_retrace_refines: the retracing loop of remove incl. rotations continuing upward; "
+    "havl_remove_leaf_refines: removal of a node that is a leaf (unlink + retracing) refines the functional model; "
+    "hht_refines_map: EVERY history of put/find/remove on the chained table with sentinel heads and prev/next links, "
+    "any hash function; hht_links_consistent: next->prev = node, first->prev = head, every node in the bucket of its key",
+    "NOT proved (stated in Properties_C09.v at havl_refines_map_partial): that the key/value swap loop of "
+    "muggle_avl_tree_remove ('move data into leaf'; it writes no pointer) picks the data the functional model's rem "
+    "picks, hence heap-level removal of an INTERIOR node.  Covered instead by: the functional rem is proved and compared "
+    "with the C code on every case; the heap model is run alongside in the model driver on every case of <= 48 "
+    "operations (all exhaustive AVL cases) and must read back as the functional tree with consistent parent links "
+    "after every operation ('chk FAIL heap-model ...' otherwise)",
     "ONLY covered by the differential run + monitor + driver walk (not by theorems): that the Gallina models equal the C "
     "code (the tie itself: every result and the pre-order key=value:balance dump of the real tree compared after every "
-    "operation); parent-link consistency of the AVL nodes; prev/next splicing and bucket membership of hash chains; the "
-    "memory-pool variant (node recycling, pool growth); release of user keys/values through the free callbacks (ASan + "
-    "live-block count at destroy); the int8_t width of the balance field; the library's default string hash",
+    "operation; the driver walks parent links / chain links / bucket membership of the REAL nodes after every "
+    "operation); the memory-pool variant (node recycling, pool growth); release of user keys/values through the free "
+    "callbacks (ASan + live-block count at destroy); the int8_t width of the balance field",
+    "hash function / table index tie: s_muggle_default_str_hash_func (a while loop over a char*) and the index "
+    "computation (an expression inside muggle_hash_table_find/put, which loop and call through function pointers) are "
+    "NOT leaf integer functions, so lib/leaftrans.py (no loops, no calls, no pointer dereference) cannot translate them. "
+    "Instead the drivers expose them: 'hash k' prints table->hash(key) (the library's default string hash for kind def) "
+    "and 'where k' the index of the bucket whose chain holds the key; both are compared with the model (Model.str_hash, "
+    "ht_idx): a change of either shows up as a broken correspondence (the monitor only checks that 'where' answers "
+    "none exactly for absent keys, since neither value is part of the property)",
     "DEFECT found on the unchanged tree by this check (VIOLATION with replay, see corpus/C09/trie-high-byte-*.case): "
-    "trie.c indexes children[(int)(*p)] with a signed char, bytes >= 0x80 give a negative index (UBSan: index -1 out of "
-    "bounds for type 'muggle_trie_node *[256]'; OOB read in find/remove, OOB write in insert); repaired by "
-    "fixes/C09-trie-unsigned-index.patch, the model and trie_refines_map describe the repaired code",
+    "trie.c indexed children[(int)(*p)] with a signed char; repaired by fixes/C09-trie-unsigned-index.patch (applied), "
+    "the model and trie_refines_map describe the repaired code",
     "return value of muggle_trie_remove (true iff the node exists, even with no data) is compared with the model but "
     "not constrained by the monitor for absent keys: the header leaves it unspecified (theorem side: [obs])",
     "observation (not a violation): muggle_trie_remove calls func_free(pool, NULL) for a key that is absent but whose "
@@ -208,8 +231,12 @@ def _rand_ht(rng, name, cap, size, kind, R, nops):
             ops.append("put %d %d" % (k, 500000 + vi))
         elif c < 75:
             ops.append("rem %d" % k)
-        elif c < 95:
+        elif c < 89:
             ops.append("find %d" % k)
+        elif c < 93:
+            ops.append("where %d" % k)
+        elif c < 96:
+            ops.append("hash %d" % k)
         else:
             ops.append("dump")
     ops.append("dump")
@@ -276,7 +303,10 @@ def corpus_cases(ctx):
         _ht_case("corpus-ht-collide", 0, 8, "zero", ["put 1 11", "put 2 12", "put 3 13", "put 2 99", "rem 2", "find 2",
                                                      "find 1", "find 3", "rem 3", "rem 1", "rem 1", "dump"]),
         _ht_case("corpus-ht-default-hash", 4, 3, "def", ["put 17 1", "put -17 2", "put 10024 3", "find 17", "rem 17",
-                                                         "find -17", "put 17 4", "dump"]),
+                                                         "find -17", "put 17 4", "hash 17", "hash -17", "where 10024",
+                                                         "where 5", "dump"]),
+        _ht_case("corpus-ht-index", 0, 11, "mul", ["put 5 1", "put -5 2", "where 5", "where -5", "hash 5", "hash -5",
+                                                   "put 16 3", "where 16", "rem 5", "where 5"]),
         _trie_case("corpus-trie-ascii-prefixes", 0, ["ins 6162 1", "ins 61 2", "ins - 3", "find 6162", "find 61", "find -",
                                                      "find 616263", "ins 6162 4", "rem 61", "find 61", "find 6162",
                                                      "rem -", "find -", "rem 7a", "dump"]),
@@ -492,6 +522,19 @@ def monitor(case, lines):
         elif kind == "ht":
             if w[0] == "dump":
                 want = " ".join(["d"] + ["%d=%d" % kv for kv in sorted(ref.items())])
+            elif w[0] in ("hash", "where"):
+                # the hash value and the bucket index are not part of the property: they are compared
+                # between model and implementation only (the tie of Model.str_hash / ht_idx to the
+                # source); the map only says whether the key is stored at all
+                k = int(w[1])
+                got = lines[i] if i < len(lines) else ""
+                gw = got.split()
+                size = int(head[2]) if int(head[2]) >= 8 else 10007
+                ok = len(gw) == 2 and gw[0] == w[0] and (
+                    (w[0] == "hash" and gw[1].isdigit()) or
+                    (w[0] == "where" and ((gw[1] == "none") == (k not in ref)) and
+                     (gw[1] == "none" or (gw[1].isdigit() and int(gw[1]) < size))))
+                want = got if ok else ("%s <%s>" % (w[0], "bucket index" if k in ref else "none"))
             else:
                 k = int(w[1])
                 if w[0] == "put":
@@ -594,9 +637,15 @@ MANIFEST = {
                    "history like a reference map.  Models tied to the C code by a differential run of the extracted models "
                    "against the sources compiled from the working tree under ASan/UBSan (with and without node pool), comparing "
                    "every result and the pre-order (key, value, balance) dump of the real tree, plus an independent Python "
-                   "monitor (dict semantics, BST/height check from the dump) and a driver walk of parent links and chains."),
+                   "monitor (dict semantics, BST/height check from the dump) and a driver walk of parent links and chains.  "
+                   "Heap-level models of the tree (left/right/parent) and of the chains (prev/next) are proved to refine the "
+                   "functional models with consistent links: rotations, rebalance, insert, remove-retracing, leaf removal, all "
+                   "hash-table operations (removal of an interior AVL node: swap loop not proved, cross-checked by execution)."),
     "design_ref": "DESIGN.md section 6 / C09",
     "level_note": ("Trusted: Coq kernel, extraction (ExtrOcamlBasic), the differential harness.  Pointer structure (parent links, "
-                   "chain splicing) is checked on the real nodes by the driver, not proved; allocation is assumed to succeed."),
-    "technique": "Coq proof of invariant preservation and map refinement (structural induction) + extracted-model differential run",
+                   "chain splicing) is proved on hand-transcribed heap models and checked on the real nodes by the driver; "
+                   "allocation is assumed to succeed."),
+    "technique": ("Coq proof of invariant preservation and map refinement (structural induction); heap-level pointer models "
+                  "proved to refine the functional ones (representation predicates, zipper for the parent-link loops) + "
+                  "extracted-model differential run"),
 }
